@@ -62,6 +62,14 @@ def ledger_cases(ctx):
     return HARNESS, lines
 
 
+def tree_ledger_cases(ctx):
+    """Nested tables (harness/hashtree_harness.cpp, also built with ledger.hpp first): programs of
+    checks/_hashtree.py; the real trace of every program is judged by the Lean `run` (balance only)."""
+    from checks import _hashtree
+    lines, _ = _hashtree.cases(ctx)
+    return "hashtree_harness.cpp", lines[:1200] if not ctx.thorough else lines
+
+
 def split_output(out):
     m = re.match(r"^(.*) ##L (\S+) live=(\d+)$", out)
     if not m:
@@ -128,3 +136,22 @@ def check(ctx, drv):
                      {"line": lines[i], "trace": outs[i][-3000:], "verdict": v})
     ctx.count("ledger:hash containers, real traces judged by Ledger.run", len(chk), len(set(chk)))
     compare_with_model(ctx, drv, lines, outs)
+    # nested tables: copy / move / merge between related tables must release everything exactly once
+    tsrc, tlines = tree_ledger_cases(ctx)
+    texe = ctx.build_harness(tsrc, flags=LEDGER_FLAGS, tag="ledger")
+    if texe:
+        touts, tfaults = core.run_lines_parallel(texe, tlines, jobs=12)
+        for i, kind, err in tfaults:
+            ctx.fail("fault:" + kind, "sanitizer fault with nested tables (ledger run) on " + tlines[i][:300], {"line": tlines[i], "stderr": err})
+        tchk, twhere = [], []
+        for i, o in enumerate(touts):
+            payload, tr, live = split_output(o)
+            if tr is not None:
+                tchk.append("ledcheck " + tr)
+                twhere.append(i)
+        tverd, _ = core.run_lines_parallel(drv, tchk, jobs=12, env=None)
+        for i, v in zip(twhere, tverd):
+            if not v.startswith("balanced"):
+                ctx.fail("ledger:hash-tree:" + v.split(" ")[0], "allocation trace of a tree of nested tables is not balanced (%s): %s" % (v, tlines[i][:300]),
+                         {"line": tlines[i], "trace": touts[i][-3000:], "verdict": v})
+        ctx.count("ledger:nested tables, real traces judged by Ledger.run", len(tchk), len(set(tchk)))
